@@ -169,6 +169,17 @@ def run_case(case, ctx):
         _try(lambda: y.set_val(-v))
         z = Fxp(np.zeros(2), s, w, nf, rounding=r)
         _try(lambda: z.__setitem__(1, v))
+        # integers in [2^63, 2^64) as lists / tuples, NumPy unsigned scalars and arrays
+        big_u = 2 ** 63 + rng.randint(0, 2 ** 62)
+        for car in ([big_u], (big_u, big_u + 5), [[big_u, 2 ** 64 - 1]], np.uint64(big_u), np.array([big_u], dtype=np.uint64), np.uint32(2 ** 32 - 1 - rng.randint(0, 9)),
+                    np.array([2 ** 31 + 7, 3], dtype=np.uint32), np.uint16(65535), np.uint8(255)):
+            _try(lambda: Fxp(car, s, w, nf, rounding=r))
+            y2 = Fxp(None, s, w, nf, rounding=r)
+            _try(lambda: y2.set_val(car))
+        # integers next to the 64-bit limits into an object with an integer bias
+        for v2, b2 in ((2 ** 63 - 1, -2), (-2 ** 63, 1), (2 ** 63 - 3, -7), (2 ** 63 + 1, 1)):
+            _try(lambda: Fxp(v2, s, w, nf, rounding=r, bias=b2))
+            _try(lambda: Fxp([1, v2] if abs(v2) < 2 ** 63 else [v2], s, w, nf, rounding=r, bias=b2))
         # moderate out-of-range values too
         lo, hi = R.code_range(s, w)
         u = float(F(rng.choice([hi + 2, lo - 2, hi * 3 + 7, lo * 3 - 7])) / F(2) ** nf)
